@@ -92,6 +92,19 @@ pub fn gen_case(rng: &mut Rng, thorough: bool) -> FaultCase {
   }
   let n = rng.usize(4);
   batch(rng, &mut prefix, n, &mut pending);
+  // the target call is often the first thing a handle does over a log that an
+  // earlier handle (or process) filled
+  match rng.below(6) {
+    0 => {
+      prefix.push(Op::DropWriter { h: 0 });
+      prefix.push(Op::NewWriter { h: 0 });
+    }
+    1 => {
+      prefix.push(Op::Reopen);
+      prefix.push(Op::NewWriter { h: 0 });
+    }
+    _ => {}
+  }
   let target = match rng.below(20) {
     0..=8 => {
       if pending == 0 {
